@@ -59,6 +59,21 @@ CLAIMED["C18"] = ("panic obligations of the reader (as C03) + CFG guard rules an
          "Writer: offset/width/value of every header store against the RFC layout, getter/setter offset agreement, field values of udp4pkt (20+8+len, 17, 8+len, ports/addresses), header/payload order, checksum fields written last from the complemented sum. "
          "Does NOT decide that the checksum arithmetic verifies under RFC 1071 (runtime arithmetic) nor arrival-order claims; hence 'other'.", "", "§5 C18")
 
+E2NOTE = "spec/layouts.json: width skeletons written by hand from the cited RFC sections, field/transform strings reviewed once against the code; a codec idiom outside the recognised ones fails as UNDECIDED."
+CLAIMED["C01"] = ("wire-schema extraction (abstract execution of encoder/decoder over the uio.Lexer ADT on SSA) compared with a reviewed RFC 2131 layout; value-identity rules on the RFC 3396 chunk loop; provenance rule on reassembly",
+         "Decides header symmetry and RFC layout of (*DHCPv4).ToBytes / FromBytes slot by slot (width, field, transform), name capacity and NUL cut, the option instance split (same n as length byte, slice and remainder; n = len clamped to 255; zero-length and every non-Pad/End key written) and append-ordered reassembly. "
+         "Does not decide equality of values for all inputs; hence 'other'.", E2NOTE, "§5 C01")
+CLAIMED["C02"] = ("table cross-check of parser switches against constant Code()/DUIDType() methods (SSA); wire-schema extraction of all DHCPv6 encoders/decoders compared with reviewed RFC rows",
+         "Decides that parser tables and Code() agree (both directions), and that every DHCPv6 encoder and decoder (34 option types, 5 DUID kinds, message and relay headers, option framing, shared Duration codec) has exactly the reviewed slot sequence of its RFC layout, "
+         "including transforms (seconds, 10 ms units, prefix length) and the conditions under which zeros are written. Does not decide value equality beyond slot/field/transform agreement; hence 'other'.", E2NOTE, "§5 C02")
+CLAIMED["C06"] = ("guard rule on net.CIDRMask call sites in the decode closure (dominating range check), wire-schema agreement shared with C01/C02",
+         "Decides necessary conditions of the decode→encode→decode fixpoint: every decode transform that is not injective on the wire domain is range-guarded (CIDRMask), and (through the C01/C02/C17 schema rows, re-evaluated here) every decoder slot lands in a field the encoder writes back with the inverse transform, "
+         "and the v4 option encoder writes every stored key including empty values. The fixpoint itself for all inputs is not decided; hence 'other'.", E2NOTE, "§5 C06")
+CLAIMED["C09"] = ("amplification-site audit on SSA loops of the decode closure (cursor monotonicity, typestate flag of cursor jumps, capped accumulators), loop-placement rules for remainder copies and accumulator-sized allocations, repeated-ToBytes rule in encoders",
+         "Decides four structural necessary conditions of bounded decoding cost (see DESIGN §5 C09). The numeric bound itself (bytes allocated per input byte) is a runtime quantity and is NOT decided; this is stated in the evidence. Hence 'other'.", "", "§5 C09")
+CLAIMED["C17"] = ("wire-schema extraction of the DHCPv4 option value types compared with reviewed RFC rows; accessor table and fallback rules",
+         "Decides codec symmetry and RFC layout of each DHCPv4 value type (IP, IPs, mask, duration, uint16, message type, strings, routes, VIVC, archs, …). Accessor fallback discipline: see evidence for the clauses implemented. Hence 'other'.", E2NOTE, "§5 C17")
+
 NA_REASON = {}
 
 def main():
